@@ -290,6 +290,23 @@ def check_names(idx, run):
               "automatically generated region names no longer include a "
               "per-(module, region) counter that is incremented for every "
               "region", loc(mod, func))
+    # the counter must be shared by all transformation instances
+    shared = "_used_kernel_names" in cls.attrs and not any(
+        isinstance(st, ast.Assign) and any(
+            isinstance(t, ast.Attribute) and
+            ast.unparse(t) == "self._used_kernel_names"
+            for t in st.targets)
+        for kls in idx.all_subclasses(cls) for fn in kls.methods.values()
+        for st in ast.walk(fn))
+    per_class = all("self._used_kernel_names" not in ast.unparse(st)
+                    for st in ast.walk(func))
+    run.check("C28.R3", shared and per_class,
+              "PSyDataTrans.get_unique_region_name",
+              "one counter shared by all transformation instances",
+              "the region-name counter is kept per transformation instance "
+              "(or re-created in a constructor): two instances applied "
+              "without a user-supplied name give the same 'rN' suffix to "
+              "different regions of the same kernel", loc(mod, func))
     # user name only when the option is given
     run.check("C28.R3", "options.get('region_name', None)" in txt,
               "PSyDataTrans.get_unique_region_name",
